@@ -8,9 +8,11 @@
     positions (owner name = the labels the name relation assigns, in wire and in lowercase dotted
     form; type, class, TTL, data length, data, address), and none of them panics.
   Accessors are pure functions of the bytes in the model, so "alters no byte" is definitional.
-  Not proved here: the walk over the EDNS options (checked by correspondence only).
+  * the walk over the EDNS options yields exactly the options that tile the data of the OPT record,
+    in order, and nothing when there is no OPT;
+  * the section accessor reports the section the record was yielded from.
 -/
-import DnsModel.Lemmas.Walk
+import DnsModel.Lemmas.EdnsWalk
 import DnsModel.Theorems.C02
 namespace Dns.C03
 open Dns Res
@@ -223,6 +225,104 @@ theorem data_accessor {p : Bytes} {sec : Section} {r : RecPos} {ob oa : Bool} (h
       simp only [bind_ok, pure_eq]
       congr 3
       omega
+
+/-- the layout together with everything `parse()` reports about it, EDNS summary included -/
+theorem layout_full {p : Bytes} {v : View} (h : parse p = .ok v) :
+    ∃ L : Layout p, 12 ≤ p.length ∧ v.offsetQuestion = some 12 ∧
+      v.offsetAnswers = (if L.answers.length > 0 then some (L.qe + 4) else none) ∧
+      v.offsetNameservers = (if L.authority.length > 0 then some L.e2 else none) ∧
+      v.offsetAdditional = (if L.additional.length > 0 then some L.e3 else none) ∧
+      (∀ r ∈ L.answers ++ L.authority, get16 p r.ne ≠ 41) ∧
+      match firstOpt p L.additional with
+      | none => v.info = EdnsInfo.none
+      | some r => ∃ n, OptionsTile p (r.ne + 10) (r.ne + 10 + get16 p (r.ne + 8)) n ∧ v.info = optInfo p r.ne n := by
+  obtain ⟨hl, _, qe, la, ln, lr, e2, o2, e3, o3, o4, i2, i3, hne, hq4, _, hla, hln, hlr, ra, rn, rr, ia, inn, ir,
+    v1, v2, v3, v4⟩ := parse_ok_layout h
+  have na := ra.no_opt_of_sec (by decide)
+  have nn := rn.no_opt_of_sec (by decide)
+  have e2' : i2 = EdnsInfo.none := ia.no_opt na
+  have e3' : i3 = i2 := inn.no_opt nn
+  subst e3'; subst e2'
+  refine ⟨⟨qe, la, ln, lr, e2, e3, o2, o3, o4, ⟨hne, hq4⟩, ra, rn, rr, hla, hln, hlr⟩, hl, v1,
+    by simp [hla, v2], by simp [hln, v3], by simp [hlr, v4], ?_, info_of_run rr ir⟩
+  intro r hr
+  rcases List.mem_append.1 hr with h | h
+  · exact na r h
+  · exact nn r h
+
+/-- **EDNS options.** The option walk yields exactly the options tiling the OPT record's data, in
+order (start and end of each), and nothing when the packet has no OPT. -/
+theorem edns_walk {p : Bytes} {v : View} (h : parse p = .ok v) :
+    ∃ L : Layout p,
+      match firstOpt p L.additional with
+      | none => collectWalk (PP.ofView p v) nextEdns 1 (Cursor.new .edns) = .ok []
+      | some r => ∃ n, OptionsTile p (r.ne + 10) (r.ne + 10 + get16 p (r.ne + 8)) n ∧
+          ∃ cs, collectWalk (PP.ofView p v) nextEdns (n + 1) (Cursor.new .edns) = .ok cs ∧
+            cs.map (fun c => (c.offset, c.offsetNext)) = (tilePairs p (r.ne + 10) n).map (fun x => (some x.1, x.2)) := by
+  obtain ⟨L, _, _, _, _, _, _, hinfo⟩ := layout_full h
+  refine ⟨L, ?_⟩
+  cases ho : firstOpt p L.additional with
+  | none =>
+    rw [ho] at hinfo
+    simp only at hinfo ⊢
+    have : v.ednsCount = 0 := by have := congrArg EdnsInfo.count hinfo; simpa [View.info, EdnsInfo.none] using this
+    exact walk_edns_none (pp := PP.ofView p v) (by simpa [PP.ofView] using this)
+  | some r =>
+    rw [ho] at hinfo
+    simp only at hinfo ⊢
+    obtain ⟨n, htile, hi⟩ := hinfo
+    have hc : v.ednsCount = n := by have := congrArg EdnsInfo.count hi; simpa [View.info, optInfo] using this
+    have hs : v.offsetEdns = some (r.ne + 10) := by have := congrArg EdnsInfo.start hi; simpa [View.info, optInfo] using this
+    have hmem : r ∈ L.additional := List.mem_of_find?_eq_some ho
+    have hfit : r.ne + 10 + get16 p (r.ne + 8) ≤ p.length := by
+      have := RRsL.mem_pos L.hr r hmem
+      obtain ⟨ob, oa, hr⟩ := this
+      have h3 := hr.2.2.1
+      have h4 := hr.2.2.2.1
+      omega
+    exact ⟨n, htile, walk_edns (pp := PP.ofView p v) (by simpa [PP.ofView] using htile) (by simpa [PP.ofView] using hfit)
+      (by simpa [PP.ofView] using hc) (by simpa [PP.ofView] using hs)⟩
+
+/-- **section accessor.** A cursor standing on a record reports the section the record belongs to;
+a cursor on the question reports the question section. -/
+theorem current_section {p : Bytes} {v : View} (h : parse p = .ok v) :
+    ∃ L : Layout p,
+      (∀ c : Cursor, c.offset = some 12 → c.currentSection (PP.ofView p v) = .ok .question) ∧
+      (∀ r ∈ L.answers, ∀ c : Cursor, c.offset = some r.off → c.currentSection (PP.ofView p v) = .ok .answer) ∧
+      (∀ r ∈ L.authority, ∀ c : Cursor, c.offset = some r.off → c.currentSection (PP.ofView p v) = .ok .nameServers) ∧
+      (∀ r ∈ L.additional, ∀ c : Cursor, c.offset = some r.off → c.currentSection (PP.ofView p v) = .ok .additional) := by
+  obtain ⟨L, _, v1, v2, v3, v4, _, _⟩ := layout_full h
+  have hq : 12 < L.qe := by obtain ⟨ls, hv⟩ := L.hq.1; exact hv.2.1.lt
+  obtain ⟨ba, bam⟩ := L.ha.bounds
+  obtain ⟨bn, bnm⟩ := L.hn.bounds
+  obtain ⟨br, brm⟩ := L.hr.bounds
+  refine ⟨L, ?_, ?_, ?_, ?_⟩
+  · intro c hc
+    unfold Cursor.currentSection
+    simp only [PP.ofView, hc, v1, v2, v3, v4, optLt, optGe]
+    by_cases a0 : L.answers.length > 0 <;> by_cases n0 : L.authority.length > 0 <;>
+      by_cases r0 : L.additional.length > 0 <;> simp [a0, n0, r0, optLt] <;> (repeat' split) <;> first | rfl | omega | (exfalso; omega)
+  · intro r hr c hc
+    have := bam r hr
+    have a0 : L.answers.length > 0 := List.length_pos_of_mem hr
+    unfold Cursor.currentSection
+    simp only [PP.ofView, hc, v1, v2, v3, v4, optLt, optGe]
+    by_cases n0 : L.authority.length > 0 <;>
+      by_cases r0 : L.additional.length > 0 <;> simp [a0, n0, r0, optLt] <;> (repeat' split) <;> first | rfl | omega | (exfalso; omega)
+  · intro r hr c hc
+    have := bnm r hr
+    have n0 : L.authority.length > 0 := List.length_pos_of_mem hr
+    unfold Cursor.currentSection
+    simp only [PP.ofView, hc, v1, v2, v3, v4, optLt, optGe]
+    by_cases a0 : L.answers.length > 0 <;>
+      by_cases r0 : L.additional.length > 0 <;> simp [a0, n0, r0, optLt] <;> (repeat' split) <;> first | rfl | omega | (exfalso; omega)
+  · intro r hr c hc
+    have := brm r hr
+    have r0 : L.additional.length > 0 := List.length_pos_of_mem hr
+    unfold Cursor.currentSection
+    simp only [PP.ofView, hc, v1, v2, v3, v4, optLt, optGe]
+    by_cases a0 : L.answers.length > 0 <;>
+      by_cases n0 : L.authority.length > 0 <;> simp [a0, n0, r0, optLt] <;> (repeat' split) <;> first | rfl | omega | (exfalso; omega)
 
 /-! non-vacuity: a response with answers, an authority record and OPT between two additional records -/
 example : ∃ v, parse C02.okPacket = .ok v := (C02.parse_ok_iff_wf _).2 (by
